@@ -185,32 +185,38 @@ _CM = {'c-matrix-path-chains': lambda run: __import__('bounded.c_sweeps', fromli
 _CML = dict(_CM, **{'c-matrix-large-shapes': lambda run: __import__('bounded.c_sweeps', fromlist=['x']).sweep_c_matrices_large(run)})
 _CDBA = {'c-dba-chains': lambda run: __import__('bounded.c_sweeps', fromlist=['x']).sweep_c_dba(run)}
 _CAFF = {'c-affinity-chains': lambda run: __import__('bounded.c_sweeps', fromlist=['x']).sweep_c_affinity(run)}
-_ALL_C_PROVED = (PROPS['C09']['contracts'][:10] + PROPS['C06']['contracts'][6:] + PROPS['C07']['contracts'] + PROPS['C02']['contracts'])
+_WPS_LAYOUT = ['dd_dtw.c::dtw_wps_parts', 'dd_dtw.c::dtw_settings_wps_length', 'dd_dtw.c::dtw_settings_wps_width', 'dd_dtw.c::dtw_wps_loc',
+               'dd_dtw.c::dtw_wps_loc_columns']
+_WPS_VALUE = ['dd_dtw.c::dtw_wps_negativize_value', 'dd_dtw.c::dtw_wps_positivize_value', 'dd_dtw.c::dtw_wps_max']
+_ALL_C_PROVED = (PROPS['C09']['contracts'][:10] + PROPS['C06']['contracts'][6:] + PROPS['C07']['contracts'] + PROPS['C02']['contracts']
+                 + _WPS_LAYOUT + _WPS_VALUE)
 
 PROPS['C08'] = dict(
-    modules=['contracts.ed_c', 'contracts.bounds_c', 'contracts.dtw_matrix_c', 'contracts.dtw_omp_c', 'contracts.dtw_c'],
+    modules=['contracts.ed_c', 'contracts.bounds_c', 'contracts.dtw_matrix_c', 'contracts.dtw_omp_c', 'contracts.dtw_c', 'contracts.wps_c'],
     contracts=[c for c in _ALL_C_PROVED if '::' in c],
     lemmas=['LenFullClosed', 'LenRectClosed', 'RowsBefore', 'RowsBeyond', 'LenFullBeyond', 'LenRowsNonneg',
             'RowAllInf', 'RowLeadInf', 'FoldMinIsMin'],
     bounded=dict(_CML, **dict(_CAFF, **_CDBA)),
     level='proof',
-    level_text='For 27 exported C routines (Euclidean bounds, LB_Keogh, block/length helpers, the six serial and six OpenMP '
-               'distance-matrix routines with their prepare step, the four DTW kernels) every array access, every signed idx_t '
+    level_text='For 37 exported C routines (Euclidean bounds, LB_Keogh, block/length helpers, the six serial and six OpenMP '
+               'distance-matrix routines with their prepare step, the four DTW kernels, and the compact-layout helpers dtw_wps_parts, '
+               'dtw_settings_wps_length/width, dtw_wps_loc, dtw_wps_loc_columns, dtw_wps_max, dtw_wps_negativize_value/positivize_value) every array access, every signed idx_t '
                'operation, every division, every assert() and every pointer dereference is a discharged obligation under the '
                'documented buffer sizes, for all lengths/windows/psi/blocks. The remaining exported routines (cost matrix in the '
                'compact layout, expansion, slices, best path, warping path) are covered by a *bounded* sanitizer sweep only.',
     level_note='Trusted: dvc C semantics (A2: mathematical integers + overflow obligations, distinct pointer parameters do not '
-               'alias), malloc succeeds (A6), gcc ASan/UBSan for the bounded part. Not covered at all: dtw_dba_*, affinity '
-               'kernels, dtw_wps_negativize/positivize, dtw_best_path_prob, print helpers.',
+               'alias), malloc succeeds (A6), gcc ASan/UBSan for the bounded part. The compact-layout helpers are proved for lengths up to 2**30 '
+               '(so that (l1+1)*width fits idx_t). Not covered at all: dtw_best_path_prob, print helpers; the range routines '
+               'dtw_wps_negativize/positivize, dtw_dba_* and the affinity kernels only by sanitizer chains.',
     trusted_base=['A2: C semantics as encoded by dvc', 'A6: malloc succeeds', A7],
     assumptions=['A2', 'A6', A7],
-    not_decided=['dtw_dba_ptrs/matrix, affinity kernels, wps negativize/positivize, best_path_prob: not covered',
+    not_decided=['dtw_dba_ptrs/matrix, affinity kernels, the range routines dtw_wps_negativize/positivize: sanitizer chains only; best_path_prob: not covered',
                  'cost-matrix / expansion / path routines: bounded sanitizer sweep only'],
 )
 
 PROPS['C04'] = dict(
-    modules=['contracts.dtw_py', 'contracts.dtw_c'],
-    contracts=['dtw.warping_paths', 'dtw.warping_paths#endpsi', 'dtw.warping_paths#psineg'],
+    modules=['contracts.dtw_py', 'contracts.dtw_c', 'contracts.wps_c'],
+    contracts=['dtw.warping_paths', 'dtw.warping_paths#endpsi', 'dtw.warping_paths#psineg'] + _WPS_LAYOUT,
     lemmas=['RowAllInf', 'RowLeadInf', 'RowMinLower', 'RowMinGreatest', 'ArgMinRow', 'PsiColLower', 'PsiColGreatest', 'ArgMinCol',
             'PsiColZero', 'RowMinGreatestSqrt', 'ArgMinRowSqrt', 'PsiColGreatestSqrt', 'ArgMinColSqrt'],
     bounded=dict(_CML, **{'c-wrapper-native-sweep': lambda run: _native_sweep(
@@ -222,8 +228,11 @@ PROPS['C04'] = dict(
     level_text='Python: dtw.warping_paths is proved (unbounded) to return a (len1+1)x(len2+1) matrix whose every cell is '
                'result_fn of the accumulated-cost recurrence W (inf outside the band / beyond max_step) and a distance equal '
                'to result_fn(W(r,c)) -- the value dtw.distance is proved to return (C01) -- for window, penalty, max_step, '
-               'begin-psi, both inner distances. C engine (compact layout, expansion, slices): bounded chains against the '
-               'path-enumeration oracle only.',
+               'begin-psi, both inner distances. C engine: the compact layout itself is under contract -- dtw_wps_parts (functional: width, '
+               'length, region boundaries ri1 <= ri2 <= ri3, transformed penalty / max_step / max_dist), dtw_settings_wps_length/width, '
+               'dtw_wps_loc and dtw_wps_loc_columns (location = R*width + c - shift(R); every in-band cell has a location, every location '
+               'lies inside its own row of the advertised buffer, hence distinct cells never share a slot). The C fill, expansion and '
+               'slices: bounded chains against the path-enumeration oracle only.',
     level_note='Second contract stage (dtw.warping_paths#endpsi): with end-of-series psi relaxation the returned value is '
                'result_fn of Dend (the value dtw.distance is proved to return), selected by np.argmin over the reversed last '
                'column / row (argmin modelled as "first minimal element", 13 induction / derived lemmas connect it to the folds '
@@ -557,8 +566,8 @@ PROPS['C11'] = dict(
 )
 
 PROPS['C18'] = dict(
-    modules=['contracts.affinity_py'],
-    contracts=['dtw.warping_paths_affinity'],
+    modules=['contracts.affinity_py', 'contracts.wps_c'],
+    contracts=['dtw.warping_paths_affinity', 'dd_dtw.c::dtw_wps_loc', 'dd_dtw.c::dtw_wps_loc_columns'] + _WPS_VALUE,
     lemmas=[],
     bounded=dict(_CAFF, **{'affinity-native-sweep': lambda run: _native_sweep(
         'affinity_native.py',
@@ -571,7 +580,11 @@ PROPS['C18'] = dict(
                'with the affinity recurrence A of specs/affinity.py (exp(-gamma*diff^2) plus best penalised predecessor, or '
                'delta + delta_factor*predecessor below tau, clipped at 0; -inf outside the band and below the diagonal under '
                'only_triu) for every window, penalty (incl. None), gamma, tau, delta, delta_factor, begin-psi.',
-    level_note='The C engine and the kbest_matches traceback are bounded only.',
+    level_note='C helpers of the match search under contract (unbounded): dtw_wps_max returns the location / row / column of the first '
+               'strictly largest positive stored cell of the compact matrix (0 when none) and reads only stored cells; '
+               'dtw_wps_negativize_value / positivize_value flip the sign of exactly the addressed finite cell and change nothing else; '
+               'dtw_wps_loc(_columns) address the compact layout. The C affinity kernels, the range routines dtw_wps_negativize / '
+               'positivize, dtw_best_path_affinity and the kbest_matches traceback are bounded only.',
     trusted_base=[PY_A1, A3_NUMPY, A7],
     assumptions=[PY_A1, A3_NUMPY, A7],
     not_decided=['end-of-series psi selection of the returned value', 'C engine unbounded', 'kbest_matches histories'],
